@@ -88,4 +88,10 @@ PROPS = {
         {"id": "C12", "quick_n": 1200, "thorough_n": 150000, "quick_s": 60, "thorough_s": 900, "timeout": 120,
          "rule": "repository (DAG <=16, tables sharing blocks, refs of every kind incl. open-transaction and remote-tracking refs, shallow commits, deleted refs) pruned twice (library, or CLI prune then gc) vs a reachability model over the raw store; non-trivial = (>=1 commit removed and >=1 kept) or shallow commit present; distinct by plan hash"},
     ]},
+    "C17": {"level": "exploration", "profiles": [
+        {"id": "C17w", "cpu": 2, "quick_n": 240, "thorough_n": 16000, "quick_s": 60, "thorough_s": 600, "timeout": 300, "seed_off": 300000,
+         "rule": "wire corruption: multi-node run with 1-4 replies of the remote truncated or bit-flipped in simnet; no panic/hang, success implies the C09 postcondition, I1-I4 on all nodes; non-trivial = >=1 corruption fired; distinct by plan hash"},
+        {"id": "C17", "quick_n": 3000, "thorough_n": 400000, "quick_s": 60, "thorough_s": 900, "timeout": 120, "mem_gb": 4,
+         "rule": "one corruption (bit flip, truncation, inflated 32/16-bit count, wrong label, zeroed run, trailing garbage; raw or inside the s2 frame) of one stored object / packfile / encoded stream, read through every reader that reaches it; every case non-trivial; distinct by plan hash"},
+    ]},
 }
